@@ -459,8 +459,8 @@ theorem translated_event_is_model (c : Cfg) (s : State) (t : Nat) (etype : Strin
 theorem send_precedes_queue :
     ∃ pre, repeatEventActs false = pre ++ [Act.send 0, Act.enqueue]
       ∧ Act.enqueue ∉ pre ∧ ∀ n, Act.send n ∉ pre := by
-  refine ⟨[Act.setItemFromItem "orig_source" "source", Act.setOutput 0], rfl, by decide, ?_⟩
-  intro n; simp
+  refine ⟨(repeatEventActs false).take ((repeatEventActs false).length - 2), by decide, by decide, ?_⟩
+  intro n; unfold repeatEventActs; simp
 
 /-- … hence, by the meaning of the translated actions: a refused forward queues nothing -/
 theorem translated_refused_forward_queues_nothing (c : Cfg) (s : State) (t : Nat) (data : Data)
@@ -473,5 +473,71 @@ theorem translated_refused_forward_queues_nothing (c : Cfg) (s : State) (t : Nat
   | cons a rs =>
     cases a <;> simp [State.answer, hr] at h
     simp [runActs, State.answer, hr]
+
+/-! #### `Repeat._maintask`: one iteration of its loop, translated (`Gen.TrR.maintaskIter`) -/
+
+/-- What the actions of an iteration do to a block that is repeating `p` (time = the expired
+    deadline).  A `send` the destination refuses raises inside the main task: the task dies, the
+    monitor aborts the simulation (`true` in the last component), the rest is skipped. -/
+def runMActs (c : Cfg) (p : Pending) : State → List MAct → State × List Sent × Bool
+  | s, [] => (s, [], false)
+  | s, .setOutput n :: r => runMActs c p { s with out := n } r
+  | s, .send rep :: r =>
+    let x : Sent := ⟨p.deadline, c.etype, rep, outData c p.data rep, s.answer⟩
+    match s.answer with
+    | .ok => let q := runMActs c p { s with resp := s.resp.tail } r; (q.1, x :: q.2.1, q.2.2)
+    | _ => ({ out := s.out, cur := none, stopped := true, resp := s.resp.tail }, [x], true)
+
+/-- … and the state in which the next iteration waits: with the new `repeat`, for `interval`
+    again when `repeating` (a task that survived an abort is cancelled before it can wait). -/
+def afterIter (c : Cfg) (p : Pending) (o : IterOut) (s : State) : State × List Sent :=
+  let q := runMActs c p s o.acts
+  if q.2.2 then (q.1, q.2.1)
+  else
+    ({ q.1 with
+        cur := if !q.1.stopped && o.repeating
+               then some { p with rep := o.rep, deadline := p.deadline + c.interval } else none },
+     q.2.1)
+
+/-- the model's `fire` IS the meaning of the translated iteration that ends with a timeout and an
+    empty queue: `repeat += 1`, `set_output(repeat)`, the re-send with that `repeat`, then
+    `repeating = count is None or repeat < count`; `data` is kept -/
+theorem translated_timeout_is_fire (c : Cfg) (s : State) (p : Pending) :
+    ∃ o, maintaskIter c.count true p.rep (.timeout true) = some o
+      ∧ o.newData = false ∧ o.continued = false
+      ∧ afterIter c p o s = ((fire c s p).1, [(fire c s p).2]) := by
+  refine ⟨⟨false, p.rep + 1, [.setOutput (p.rep + 1), .send (p.rep + 1)], repeating c (p.rep + 1), false⟩,
+    ?_, rfl, rfl, ?_⟩
+  · unfold maintaskIter repeating
+    cases c.count <;> simp
+  · unfold afterIter fire
+    cases hr : s.resp with
+    | nil => simp [runMActs, State.answer, hr]
+    | cons a rs => cases a <;> simp [runMActs, State.answer, hr]
+
+/-- an iteration that gets an item (idle or repeating alike): `data` is the new item, the numbering
+    restarts at 0, NOTHING is sent (the original was forwarded by the handler), and the task
+    repeats iff `count is None or 0 < count` – this is the meaning of `Act.enqueue` in `runActs` -/
+theorem translated_item_restarts (c : Cfg) (b : Bool) (r : Nat) :
+    maintaskIter c.count b r .item = some ⟨true, 0, [], repeating c 0, false⟩ := by
+  unfold maintaskIter repeating
+  cases b <;> cases c.count <;> simp
+
+theorem translated_item_is_enqueue (c : Cfg) (s : State) (t : Nat) (d : Data) (b : Bool) (r : Nat) :
+    ∃ o, maintaskIter c.count b r .item = some o ∧ o.acts = [] ∧
+      (runActs c t s d [Act.enqueue]).1.cur =
+        (if !s.stopped && o.repeating then some ⟨d, o.rep, t + c.interval⟩ else none) :=
+  ⟨_, translated_item_restarts c b r, rfl, rfl⟩
+
+/-- THE SAME-ITERATION RULE in the source: a timeout that finds the queue non-empty sends nothing
+    and changes nothing (`continue`) – the new item supersedes the event repeated so far -/
+theorem translated_timeout_superseded (count : Option Nat) (r : Nat) :
+    maintaskIter count true r (.timeout false) = some ⟨false, r, [], true, true⟩ := by
+  unfold maintaskIter; simp
+
+/-- an idle task waits without a timeout, and the task starts idle -/
+theorem translated_idle_never_times_out (count : Option Nat) (r : Nat) (q : Bool) :
+    maintaskIter count false r (.timeout q) = none ∧ maintaskInit = false := by
+  unfold maintaskIter; simp [maintaskInit]
 
 end Edzed.Repeat.TrTie
